@@ -643,20 +643,34 @@ where
         // TODO: does not handle unrealistically large buffers
         let offset = to.byte as i64 - self.position.byte as i64;
         let pos = self.buf_pos.start as i64 + offset;
-        self.position = to.clone();
-        self.state = State::Positioned;
+        // The buffer contents are only complete if the buffer is full or the end
+        // of the input was reached (not the case after an I/O error)
+        let buf_complete =
+            self.get_buf().len() == self.buf_reader.capacity() || self.state == State::Finished;
 
-        if pos >= 0 && pos < (self.get_buf().len() as i64) {
+        if buf_complete && pos >= 0 && pos < (self.get_buf().len() as i64) {
             // position reachable within buffer -> no actual seeking necessary
+            self.position = to.clone();
+            self.state = State::Positioned;
             self.search_pos = pos as usize;
             self.buf_pos.reset(pos as usize);
             return Ok(());
         }
 
+        // if this fails, the reader remains unchanged
         self.buf_reader.seek(io::SeekFrom::Start(to.byte))?;
-        fill_buf(&mut self.buf_reader)?;
+        // the buffer is empty now
+        self.position = to.clone();
         self.search_pos = 0;
         self.buf_pos.reset(0);
+        if let Err(e) = fill_buf(&mut self.buf_reader) {
+            // nothing can be parsed from an incompletely filled buffer
+            let n = self.get_buf().len();
+            self.buf_reader.consume(n);
+            self.state = State::Finished;
+            return Err(e.into());
+        }
+        self.state = State::Positioned;
         Ok(())
     }
 }
